@@ -397,3 +397,146 @@ Theorem C10_pop_min_boosting :
        PQProofs.Inv HPV (pq_ p')).
 Proof. split; [exact reachable_Inv_boost | exact pop_min_boost]. Qed.
 Print Assumptions C10_pop_min_boosting.
+
+(* ------------------------------------------------------------------------------------
+   Equal priorities: the WHOLE RUN (Sched/EqualRunBase.v, EqualRunOps.v, EqualRunSteps.v,
+   EqualRun.v).  "With all priorities equal it schedules exactly like the plain scheduling
+   loop, whatever the history and with starvation boosting at its default setting."
+
+   The two loops: sl0 = init_st false ... (ready queue = list) and sp0 = init_st true factor
+   draws ... (ready queue = PosPriorityQueue with ANY boost factor and random draws), same
+   locks / conditions / events, driven by the same environment actions (spawn any program,
+   run one ready handle, begin an iteration / timers, advance the clock, any library call
+   from outside).
+
+   Hypothesis  mon_run sl0 acts = true : a boolean computed on the LIST loop's run only:
+     (a) the only priority value programs hand out is 0  (Spawn (SPrio p), OSetPrio p: p == 0);
+     (b) whenever the scheduler searches the ready queue for the handle of a task t
+         (task_throw / task_interrupt / task_switch / task_reinsert / the sleep_insert
+         callback / task_timeout's interruptor) at most one handle of t is queued - true of
+         every task that is not done (C09; C10_whole_run_monitor below); a done task can keep
+         a handle only if a program completes the task's own future with
+         set_result/set_exception/cancel, which asyncio.Task refuses (model artefact,
+         notes/C09.md section "Side conditions" 2);
+     (c) where call_pos is used the queued ids are allocated handles (always true, C09).
+   Conclusion: after every prefix of the action list the two states agree on every component
+   - handles, futures, tasks (priorities included), locks and their waiter heaps, conditions,
+   events, timeout blocks, timers, clock, current task, log, loop errors - and the ready
+   queues hold the same handles in the same run order (RisoB 0: moreover the priority
+   queue satisfies its invariant and every regular entry is keyed == 0). *)
+From Asynkit Require Import Base.Obs Sched.Corr Sched.EqualRunBase Sched.EqualRunOps
+     Sched.EqualRunSteps Sched.EqualRun.
+
+Theorem C10_equal_priorities_whole_run :
+  forall factor draws lks cds nev (acts : list action),
+    let sl0 := init_st false factor draws lks cds nev in
+    let sp0 := init_st true factor draws lks cds nev in
+    mon_run sl0 acts = true ->
+    forall n,
+      let sl := fold_left do_action (firstn n acts) sl0 in
+      let sp := fold_left do_action (firstn n acts) sp0 in
+      handles sp = handles sl /\ futs sp = futs sl /\ tasks sp = tasks sl /\
+      locks sp = locks sl /\ conds sp = conds sl /\ events sp = events sl /\
+      blocks sp = blocks sl /\ timers sp = timers sl /\ now sp = now sl /\
+      current sp = current sl /\ log sp = log sl /\ errors sp = errors sl /\
+      rq_items (ready sp) = rq_items (ready sl) /\
+      RisoB 0 (ready sp) (ready sl) /\
+      (forall t, effective_priority sp t = effective_priority sl t /\ effective_priority sl t == 0).
+Proof.
+  intros factor draws lks cds nev acts sl0 sp0 M n sl sp.
+  pose proof (equal_priorities_whole_run factor draws lks cds nev acts M n) as H.
+  fold sl0 sp0 in H. fold sl sp in H.
+  destruct (SimEq_order sl sp H) as (Hi & He & _).
+  destruct H. repeat split; auto; apply He.
+Qed.
+Print Assumptions C10_equal_priorities_whole_run.
+
+(* ... in terms of the correspondence observation (Sched/Corr.v: ostate = everything the
+   harness compares after every action): the priority loop's sequence of observations, with
+   its ready queue shown as run order (oview: list of (handle id, cancelled, task) instead
+   of the heap array), IS the list loop's sequence of observations *)
+Theorem C10_equal_priorities_whole_run_obs :
+  forall factor draws lks cds nev (acts : list saction),
+    mon_run (init_st false factor draws lks cds nev) (map act acts) = true ->
+    run_view (init_st true factor draws lks cds nev) acts =
+    run_from (init_st false factor draws lks cds nev) acts.
+Proof. exact equal_priorities_whole_run_obs. Qed.
+Print Assumptions C10_equal_priorities_whole_run_obs.
+
+(* the simulation, layer by layer: SimEq (all components equal, ready queues RisoB 0-related,
+   all PriorityTask priorities == 0) holds initially and is preserved, with equal results,
+   by every library call (all 35 libops), frame resumption, user code (every coro tree,
+   eager / descend / start spawns included), Task.__step, run_one, the timer phase and every
+   environment action *)
+Theorem C10_whole_run_simulation :
+  (forall factor draws lks cds nev,
+     SimEq (init_st false factor draws lks cds nev) (init_st true factor draws lks cds nev)) /\
+  (forall t op sl sp, SimEq sl sp -> mon_lib t op sl = true ->
+     SimEq (fst (lib_call t op sl)) (fst (lib_call t op sp)) /\
+     snd (lib_call t op sp) = snd (lib_call t op sl)) /\
+  (forall t frs inp sl sp, SimEq sl sp -> mon_stack t frs inp sl = true ->
+     SimEq (fst (resume_stack t frs inp sl)) (fst (resume_stack t frs inp sp)) /\
+     snd (resume_stack t frs inp sp) = snd (resume_stack t frs inp sl)) /\
+  (forall t c sl sp, SimEq sl sp -> mon_exec t c sl = true ->
+     SimEq (fst (exec t c sl)) (fst (exec t c sp)) /\ snd (exec t c sp) = snd (exec t c sl)) /\
+  (forall t exc sl sp, SimEq sl sp -> mon_step t exc sl = true ->
+     SimEq (step_task t exc sl) (step_task t exc sp)) /\
+  (forall sl sp, SimEq sl sp -> mon_run_one sl = true -> SimEq (run_one sl) (run_one sp)) /\
+  (forall sl sp, SimEq sl sp -> SimEq (begin_iteration sl) (begin_iteration sp)) /\
+  (forall a sl sp, SimEq sl sp -> mon_action sl a = true ->
+     SimEq (do_action sl a) (do_action sp a)).
+Proof.
+  split; [exact SimEq_init|]. split; [exact SimEq_lib_call|]. split; [exact SimEq_resume_stack|].
+  split; [exact SimEq_exec|]. split; [exact SimEq_step_task|]. split; [exact SimEq_run_one|].
+  split; [exact SimEq_begin_iteration|exact SimEq_do_action].
+Qed.
+Print Assumptions C10_whole_run_simulation.
+
+(* the queue conditions (b), (c) of the monitor are consequences of the C09 invariant for
+   every task that is not done; at a library call made in a state satisfying InvC (every
+   state of the list loop reached by an actions_ok history, between steps and inside them:
+   C09_inv, C09_inv_inside_step) the monitor reduces to: set_priority only with 0, and the
+   target of task_switch / task_reinsert is not a done task.  Hence one library call keeps
+   the two loops in step under these plain conditions. *)
+From Asynkit Require Import Sched.PartitionFinal.
+Theorem C10_whole_run_monitor :
+  (forall qok c s, InvC qok c s -> rwfb s = true) /\
+  (forall qok c s t, InvC qok c s -> tdone s t = false -> uq s t = true) /\
+  (forall qok, QSpec qok -> forall c s t op, InvC qok c s ->
+     match op with
+     | OSetPrio p => Qeq_bool p 0 = true
+     | OTaskSwitch t' _ | OTaskReinsert t' _ => tdone s t' = false
+     | _ => True
+     end -> mon_lib t op s = true) /\
+  (forall qok, QSpec qok -> forall c s t fr inp, InvC qok c s -> mon_frame t fr inp s = true) /\
+  (forall c t op sl sp, InvC qok_list c sl -> SimEq sl sp ->
+     match op with
+     | OSetPrio p => Qeq_bool p 0 = true
+     | OTaskSwitch t' _ | OTaskReinsert t' _ => tdone sl t' = false
+     | _ => True
+     end ->
+     SimEq (fst (lib_call t op sl)) (fst (lib_call t op sp)) /\
+     snd (lib_call t op sp) = snd (lib_call t op sl)).
+Proof.
+  split; [exact rwfb_of_inv|]. split; [exact uq_of_inv|]. split; [exact mon_lib_of_inv|].
+  split; [exact mon_frame_of_inv|].
+  intros c t op sl sp I H Hc. apply SimEq_lib_call; auto.
+  exact (mon_lib_of_inv qok_list QSpec_list c sl t op I Hc).
+Qed.
+Print Assumptions C10_whole_run_monitor.
+
+(* non-vacuity: three tasks (two PriorityTasks of priority 0 and a plain task) contending
+   for a PriorityLock, with sleep_insert, task_switch (both forms), cancel, set_priority(0),
+   a sleep timer and the clock; boost factor 1/2.  The monitor holds (vm_compute), so the
+   theorem applies: the two final states are SimEq; the log shows the interleaving. *)
+Example C10_example_whole_run :
+  mon_run (init_st false (1#2) [1#3; 2#3] [LPrio] [] 0) ex_acts = true /\
+  SimEq ex_sl ex_sp /\
+  log ex_sl = [(1, 1%Z); (1, 2%Z); (3, 4%Z); (2, 3%Z); (3, 5%Z); (3, 8%Z); (1, 6%Z); (2, 7%Z)] /\
+  log ex_sp = log ex_sl /\
+  mon_run (init_st false (1#2) [] [] [] 0) [ASpawn (SPrio 1) (Ret 0)] = false.
+Proof.
+  split; [exact ex_mon|]. destruct equal_priorities_example as (H1 & H2 & H3 & _).
+  split; [exact H1|]. split; [exact H2|]. split; [exact H3|]. exact (proj1 ex_mon_rejects).
+Qed.
+Print Assumptions C10_example_whole_run.
